@@ -84,10 +84,10 @@ def confirmed(binary, case, sig, check, tag="l1_confirm", tries=2):
     return True
 
 
-def run_soak(ck, binary, rng, monitor, dist, only=None):
-    """Runs l1.soak_scenarios (long histories of valid requests) and applies monitor(case, intents, obs) -> failures;
-    the probe events at the end must be answered."""
-    for name, scase, sint, nprobe in l1.soak_scenarios(rng):
+def run_soak(ck, binary, rng, monitor, dist, only=None, scenarios=None):
+    """Runs l1.soak_scenarios (long histories of valid requests; or the given fixed scenarios) and applies
+    monitor(case, intents, obs) -> failures; the probe events at the end must be answered."""
+    for name, scase, sint, nprobe in (scenarios if scenarios is not None else l1.soak_scenarios(rng)):
         if only and not any(name.startswith(o) for o in only):
             continue
         try:
